@@ -42,6 +42,8 @@ func runC19(c *Ctx) {
 	c.Rule("C19.O3", "E4,E5", "func() tasks are invoked only in frames deferring recover(); a task taken from the queue reaches exactly one of fork/caller on every non-nil path", 3)
 	c.Rule("C19.O4", "E1", "TaskPool.concurrent is atomic-only; Timer.asyncList is guarded by asyncMux", 8)
 	c.Rule("C19.O5", "E4,E1-atomic", "Timer.Async hand-over: head decided in the append's critical section; drainer exhaustion+reset atomic, functions run unlocked in a recover frame, index +1", 3)
+	c.Rule("C19.O6", "E4", "fork's contract with its callers: every return of fork, true or false, is dominated by the +1 on the worker counter (the callers undo exactly one on false)", 1)
+	c19ForkBalance(c)
 
 	fork := c.Fn("C19.O1", "(*taskpool.TaskPool).fork")
 	if fork == nil {
@@ -456,4 +458,30 @@ func (c *Ctx) sameCell(a ssa.Value, v ssa.Value) bool {
 		}
 	}
 	return false
+}
+
+// c19ForkBalance: O6.
+func c19ForkBalance(c *Ctx) {
+	fn := c.Fn("C19.O6", "(*taskpool.TaskPool).fork")
+	if fn == nil {
+		return
+	}
+	fi := c.P.Info(fn)
+	var incs []ssa.Instruction
+	for _, cs := range c.P.CallsNamed(fn, "sync/atomic.AddInt64") {
+		if k, ok := ir.ConstInt(cs.Common.Args[1]); ok && k == 1 && cs.In.Parent() == fn {
+			incs = append(incs, cs.In)
+		}
+	}
+	bad := ""
+	if len(incs) != 1 {
+		bad = fmt.Sprintf("expected exactly one +1 on the worker counter in fork, found %d", len(incs))
+	} else {
+		for _, r := range fi.Returns() {
+			if !fi.Dominates(incs[0], r) {
+				bad = "fork returns at " + c.Pos(r) + " without having incremented the worker counter, but its callers subtract one after every failed fork: the counter drifts below zero and more workers run than the bound allows"
+			}
+		}
+	}
+	c.Cond(bad == "", "C19.O6", fnKey(c.P, fn, "every return carries the +1"), c.FnPos(fn), "the increment dominates every return", bad)
 }
